@@ -793,6 +793,10 @@ func ruleEnvNames(c *Ctx) {
 			if inLp && retErr && okb {
 				okv = true
 			}
+			// or: every failure is collected and the aggregate of the list is returned
+			if inLp && accumulatedAndReported(valid, call) {
+				okv = true
+			}
 		}
 		c.Check(okv, "R3", "envs.(*Environments).valid checks every key", valid.Pos(), "validKey for each key of the map; first failure returned", "valid does not check every key of the map (or drops the failure)")
 	}
